@@ -320,7 +320,7 @@ def main(argv: list[str]) -> int:
     if tv["rejected"]:
         for rej in tv["rejected"][:5]:
             v.violation("trace:" + json.dumps(rej["at"]), rej, "recorded store trace is not a behaviour of Trace_Incremental.tla: " + rej["why"])
-    if scen == 0 or tv["validated"] == 0:
+    if scen == 0 or (tv["validated"] == 0 and not tv["rejected"]):
         raise MachineryError("conformance step did not run")
     samples = [dict(s) for r in results for s in r["traces"]][:2]
     for s in samples:
